@@ -70,6 +70,26 @@ def RTree.flatL : List RTree → List (Nat × List Nat)
   | k :: ks => k.flat ++ RTree.flatL ks
 end
 
+/-! ### `TTNO.from_tensor`: the specified result -/
+
+/-- what the documentation promises for the node `t` (root of a subtree) with parent `par`: the
+    reference tree's identifier, parent and children (in order), and a tensor whose legs are the bond to
+    the parent, the bonds to the children in order, and the node's own two legs of the dense input
+    (`leg_dict[id]` and `half + leg_dict[id]`) -/
+def specNode (ld2 : Nat → List Nat) (par : Option Nat) (t : RTree) : FNode :=
+  ⟨t.id, par, t.kids.map RTree.id,
+   par.toList.map (fun q => Leg.bond q t.id) ++ t.kids.map (fun k => Leg.bond t.id k.id) ++
+     (ld2 t.id).map Leg.ax⟩
+
+mutual
+/-- all nodes of the subtree in pre-order (the insertion order of the result) -/
+def specNodes (ld2 : Nat → List Nat) : Option Nat → RTree → List FNode
+  | par, .node i kids => specNode ld2 par (.node i kids) :: specNodesL ld2 i kids
+def specNodesL (ld2 : Nat → List Nat) (i : Nat) : List RTree → List FNode
+  | [] => []
+  | k :: ks => specNodes ld2 (some i) k ++ specNodesL ld2 i ks
+end
+
 /-- the field term `-1 · g · B_i` and the coupling term `-1 · J · A_i A_j` in the code's convention
     `(Fraction(-1), symbol, {site: operator})` -/
 def fieldTerm {α : Type} (i : α) : Term α := ⟨-1, .extMagn, [(i, .B)]⟩
